@@ -7,6 +7,7 @@ import warnings
 
 import common
 from props import accessspec as spec
+from props import c02rebind
 from props import classentries
 from props import sigcases
 from props import sigspec
@@ -31,7 +32,15 @@ def run(tier, seed, build):
                 "(-o ir, -o results for call-free entries); EVERY FileIr entry is bounded from the source: function / lambda / "
                 "__init__ / static method by its own body, the synthetic enum initialiser by {Class.m : the class body itself "
                 "stores to m at class scope}, namedtuple by nothing, @rattr_results by its literals; also non-trivial = "
-                "distinct justified enum / init / static / namedtuple entry with >= 1 name")
+                "distinct justified enum / init / static / namedtuple entry with >= 1 name. "
+                "Re-bound plug-in spellings (c02rebind): 1-3 file projects in which ONE spelling (dd / defaultdict / co.defaultdict / sorted / "
+                "getattr-family / an alias of a builtin) is the plug-in handled callable in one function / file and a parameter, a local, a "
+                "nested def, a comprehension variable or another module-level definition in another one, in both orders, in one file and "
+                "across followed imports; every captured FunctionAnalyser run vs the Lean model in the context of that moment, FileAnalyser "
+                "vs analyse_file, pipeline in-process, CLI; EVERY entry is bounded by the BINDING-AWARE oracle (plug-in derivations only "
+                "where the callee denotes the plug-in callable by Python's scoping rules); freshness in-process (alone in a fresh root "
+                "context without siblings) and across processes (CLI on the stripped file with -f 0 vs the project); also non-trivial = "
+                "distinct callable with a re-bound plug-in spelling and >= 2 reported names")
     rng = random.Random(seed)
     n_modules = 60 if tier == "quick" else 900
     model = common.Model()
@@ -126,6 +135,9 @@ def run(tier, seed, build):
     # Lean model (op analyse_file), the real pipeline in-process, the CLI (-o ir / -o results)
     res.extra["class_entry_verdicts"] = classentries.run_stage(
         res, random.Random(seed + 7002), 70 if tier == "quick" else 900, 14 if tier == "quick" else 80, model)
+    # state that survives from one analysed callable / file to the next: the same spelling bound to a plug-in handled callable
+    # here and to a parameter / local / other definition there, in both orders, same file and followed imports
+    res.extra["rebind_entries_judged"] = c02rebind.run_stage(res, random.Random(seed + 7004), tier, model)
     res.assumptions = [
         "[interp] named derivations admitted beyond the property's list: sorted(xs, key=lambda x: x.k) reports xs.k; defaultdict(factory) reports a call to factory",
         "[interp] `E()` (a call result used as a name-chain link) counts as an occurrence of the expression E()",
@@ -138,6 +150,11 @@ def run(tier, seed, build):
         "bounds; for __init__ / static methods also the class header; for `name: ANN = lambda` the annotation) is not part of its body: "
         "a name only the signature mentions is a phantom (`only-in-own-signature:<part>`). The signature of a def / lambda NESTED in the "
         "body is an expression of that body: admitted if reported (the pinned rattr reports none: counted under sig:nested-…)",
+        "[interp] the getattr-family / sorted / defaultdict derivations are admitted for a call only where its callee DENOTES that callable "
+        "by Python's scoping rules (not bound as a parameter / local / nested def / comprehension variable of an enclosing scope of the "
+        "body, and bound at module level to the builtin or to an import of it, also through an alias or a project file's re-export); "
+        "such a call may also be reported as the ordinary call it is (rattr does not recognise every alias). A call whose callee is "
+        "bound to anything else is an ordinary call: its spelled callee and its argument expressions, nothing more",
     ]
     return res
 
